@@ -37,6 +37,7 @@ func unaryF(req []byte) []byte {
 //   early:K         return after receiving K messages, without reading the rest
 //   fail:K:CODE     consume K messages, then return status CODE with message "boom <K>"
 //   hold            block until the stream's context is done, return its error
+//   ownctx:K        consume K messages, return the error of a context of the handler's own (context.Canceled)
 //   holdhdr         as hold, then SendHeader (which may fail on the finished stream), then return
 //   badsend:K       consume K messages, fail one SendMsg in the codec, return nil
 //
@@ -189,6 +190,17 @@ func InstallPrograms(impl *Impl, log *HandlerLog, gate func(tag string)) {
 		case "hold":
 			<-ctx.Done()
 			return finish(ctx.Err())
+		case "ownctx":
+			// the handler fails with the error of a context of ITS OWN that it cancelled (an errgroup, a
+			// downstream call): a Canceled outcome on a stream whose caller is still there
+			own, cancelOwn := context.WithCancel(ctx)
+			cancelOwn()
+			for i := 0; i < arg(1); i++ {
+				if _, err := recv(); err != nil {
+					break
+				}
+			}
+			return finish(own.Err())
 		case "holdhdr":
 			// as hold, but once its caller has gone the handler still tries to send its headers explicitly
 			// (the write may fail: the stream's context is done) before it returns
